@@ -228,11 +228,13 @@ CLAIMED['C04'] = (
     'Reduced scope. Proof, per box class (mfhd, mehd, trex, tfdt, tfhd with all 2^5 optional-field combinations, trun header and trun '
     'with a two-entry sample table under all 64 flag combinations (defaults from tfhd, first-sample flags, cumulative offsets), sidx '
     'with 0-2 bit-packed references, '
-    'tenc, mdhd incl. 1904-epoch dates and packed language, emsg v0/v1 with/without payload, pssh with 0-3 key ids, btrt, pasp) '
+    'tenc, mdhd incl. 1904-epoch dates and packed language, emsg v0/v1 with/without payload, pssh with 0-3 key ids, btrt, pasp, saiz with '
+    'and without aux type, default size or a 0/1/3-entry size table) '
     'and for all field values legal for the version/flags: every value written fits its field, parsing the produced bytes '
     'returns exactly the written version, flags and fields and consumes them exactly, the encoded size is the specified one; '
     'TrackFragmentDecodeTimeBox switches to the 64-bit form exactly when the value needs it. The repository\'s FieldWriter / '
-    'FieldReader are analysed as real code inside every one of these.',
+    'FieldReader are analysed as real code inside every one of these. JSON: only the aux_info_type of saiz / saio (written as hex text by '
+    '_to_json, read back as the same number by the constructor).',
     'Trusted: byte-trace model of the stream and of struct.pack/unpack (stdlib); box header skipped via initial_data; strings in '
     'emsg/mdhd are fixed representative texts (their codec runs concretely). Everything else in the statement (sample tables and '
     'other list-bearing boxes, sample entries, descriptors, headers, lazy mode, JSON, tree edits) is not covered - see evidence not_covered.',
